@@ -132,6 +132,7 @@ static Verdict check_grad(const Program &P, Stats &st) {
   return vd;
 }
 
+#include "prog_batch_api.h"
 // MODE-FUNCTIONS-HERE
 
 // =================================================================== driver
@@ -146,6 +147,8 @@ static GenOpts opts_for(const string &mode) {
 }
 static Verdict check(const string &mode, const Program &P, Stats &st) {
   if (mode == "grad") return check_grad(P, st);
+  if (mode == "batch") return check_batch(P, st);
+  if (mode == "api") return check_api(P, st);
   // MODE-DISPATCH-HERE
   return Verdict::F("bad-mode " + mode);
 }
